@@ -31,8 +31,8 @@ LIFE = {
     "C12": dict(models=["base_tot", "base_exp", "base_zero"], tmodels=["base_conf"], fams=["base", "amtless"], crashes=(0,), wf=0, rf=0),
     "C13": dict(models=["base_foreign"], tmodels=["twohash"], fams=["other", "twohash"], crashes=(0,), wf=0, rf=0, extra=["class"]),
     "C10": dict(models=["base_foreign", "base_amtless"], tmodels=["base_conf"], fams=["other", "amtless"], crashes=(0,), wf=0, rf=0, extra=["class"]),
-    "C15": dict(models=["provider"], tmodels=[], fams=["base"], crashes=(0,), wf=0, rf=0, direct=3, allrate=1, extra=["e2e_codes"]),
-    "C16": dict(models=["provider"], tmodels=[], fams=["base"], crashes=(0,), wf=0, rf=0, direct=3, allrate=1),
+    "C15": dict(models=["provider"], tmodels=[], fams=["base"], crashes=(0,), wf=0, rf=0, direct=3, allrate=1, extra=["e2e_codes", "many_parts"]),
+    "C16": dict(models=["provider"], tmodels=[], fams=["base"], crashes=(0,), wf=0, rf=0, direct=3, allrate=1, extra=["many_parts"]),
     "C14": dict(extra=["e2e_iso", "poll_window"], live=["iso"], models=["twohash"], tmodels=["t_twohash2"], fams=["twohash"], crashes=(0,), wf=0, rf=0, freeze=True),
 }
 
@@ -246,6 +246,10 @@ def build_jobs(pid, tier, seed, workdir):
         dj = scen.write_fault_jobs(start_run=runno, probes=spec.get("probes", 0))
         jobs += dj; runno += len(dj)
         sched_stats["directed write-fault schedules"] = len(dj)
+    if "many_parts" in ex:
+        dj = scen.many_parts_jobs(start_run=runno)
+        jobs += dj; runno += len(dj)
+        sched_stats["directed many-parts schedules"] = len(dj)
     if "slow_decision" in ex:
         dj = scen.slow_decision_jobs(start_run=runno)
         jobs += dj; runno += len(dj)
